@@ -397,3 +397,67 @@ func stackTop(stack string) string {
 	}
 	return strings.Join(out, "\n")
 }
+
+type (
+	protoreflectName = protoreflect.Name
+	protoreflectMD   = protoreflect.MessageDescriptor
+)
+
+// normNullValues clears singular google.protobuf.Value fields that hold NullValue. protojson
+// cannot distinguish "unset" from "null" for such a field once a message has been rendered
+// with unpopulated fields (null is emitted for unset and parsed back as NullValue), so the
+// distinction is not something any JSON leg can carry; it is not judged.
+func normNullValues(m proto.Message) proto.Message {
+	if m == nil {
+		return nil
+	}
+	c := proto.Clone(m)
+	normNullValuesIn(c.ProtoReflect())
+	return c
+}
+
+func normNullValuesIn(m protoreflect.Message) {
+	m.Range(func(fd protoreflect.FieldDescriptor, v protoreflect.Value) bool {
+		switch {
+		case fd.IsMap():
+			if fd.MapValue().Message() != nil {
+				v.Map().Range(func(_ protoreflect.MapKey, mv protoreflect.Value) bool {
+					normNullValuesIn(mv.Message())
+					return true
+				})
+			}
+		case fd.IsList():
+			if fd.Message() != nil {
+				for i := 0; i < v.List().Len(); i++ {
+					normNullValuesIn(v.List().Get(i).Message())
+				}
+			}
+		case fd.Message() != nil:
+			if fd.Message().FullName() == "google.protobuf.Value" {
+				vm := v.Message()
+				if od := vm.Descriptor().Oneofs().ByName("kind"); od != nil {
+					if w := vm.WhichOneof(od); w == nil || w.Name() == "null_value" {
+						m.Clear(fd)
+					}
+				}
+				return true
+			}
+			if fd.Message().FullName() == "google.protobuf.Struct" || fd.Message().FullName() == "google.protobuf.ListValue" {
+				return true
+			}
+			normNullValuesIn(v.Message())
+		}
+		return true
+	})
+}
+
+// spun reports (as a violation of the running check) a backend whose body reads never end.
+func spun(c interface {
+	Fail(string, string, ...any)
+}, id string, r runResult) bool {
+	if r.Backend != nil && r.Backend.Seen != nil && strings.Contains(r.Backend.Seen.ReadErr, "did not terminate") {
+		c.Fail(id+".backend-read-never-ends", "the request body handed to the backend never reports EOF or an error")
+		return true
+	}
+	return false
+}
